@@ -156,7 +156,13 @@ def tree_case(rng, S, depth, concrete=False):
     if k < 0.3:
         return t
     if k < 0.55:
-        return [rng.choice(CMPS), t, fp_tree(rng, S, depth - 1, concrete)]
+        cmp_ = [rng.choice(CMPS), t, fp_tree(rng, S, depth - 1, concrete)]
+        kk = rng.random()
+        if kk < 0.25:
+            return ["bnot", cmp_]
+        if kk < 0.35:
+            return [rng.choice(["band", "bor"]), cmp_, ["bnot", [rng.choice(CMPS), fp_tree(rng, S, depth - 1, concrete), t]]]
+        return cmp_
     if k < 0.65:
         return [rng.choice(["fpisnan", "fpisinf"]), t]
     if k < 0.8:
@@ -193,8 +199,9 @@ def sym_case(rng):
     x, y = ["fps", "x" + S, S], ["fps", "y" + S, S]
     c = leaf(rng, S, True)
     rm = rng.choice(RMS)
-    k = rng.randrange(14)
+    k = rng.randrange(20)
     other = "D" if S == "F" else "F"
+    nan = ["fpv", 0x7FC00000 if S == "F" else 0x7FF8000000000000, S]
     w = rng.choice([8, 32, 64])
     return [
         lambda: [rng.choice(ARITH), rm, x, c],
@@ -211,6 +218,13 @@ def sym_case(rng):
         lambda: ["fp2ieee", x],
         lambda: [rng.choice(["fp2sbv", "fp2ubv"]), rm, x, w],
         lambda: ["fp2ieee", ["raw2fp", ["bvs", f"r{fpbits(S)}", fpbits(S)], S]],
+        # Boolean structure over float comparisons: IEEE comparisons are not each other's complements (NaN)
+        lambda: ["bnot", [rng.choice(CMPS), x, y]],
+        lambda: ["bnot", [rng.choice(CMPS), x, rng.choice([c, nan])]],
+        lambda: ["bnot", [rng.choice(CMPS), rng.choice([c, nan]), x]],
+        lambda: [rng.choice(["band", "bor"]), [rng.choice(CMPS), x, y], ["bnot", [rng.choice(CMPS), x, y]]],
+        lambda: ["ite", ["bnot", [rng.choice(CMPS), x, y]], x, y],
+        lambda: ["bnot", ["bnot", [rng.choice(["fpisnan", "fpisinf"]), x]]],
     ][k]()
 
 
